@@ -34,6 +34,8 @@ def cell_obligations(chk, F, which, rule, classes=None, kinds=None, prefix='cell
                 continue
             if kinds is not None and kind not in kinds:
                 continue
+            if kind == 'reset' and not model.sub_key('reset'):
+                continue
             rows = [r for r in P.rows if r.pair_key == key and r.cname == cname]
             okey = '%s/%s/%s/%s/%s/%s' % (chk.pid, prefix, cfg, which, shape, cname)
             mm = bad.get((key, cname))
